@@ -9,6 +9,7 @@ pub mod c10;
 pub mod c11;
 pub mod c12;
 pub mod c13;
+pub mod c14;
 pub mod miri;
 
 use crate::report::{Report, Tier};
@@ -165,6 +166,17 @@ pub fn plan(id: &str) -> Option<Plan> {
             assumptions: BASE_ASSUMPTIONS.to_vec(),
             floor: 50,
             engines: vec![Engine { name: "sim", salt: 1, quick: 6000, thorough: 400_000, serial: false, run: Box::new(|s, t| c12::scenario(s, t)) }],
+            extra: None,
+        },
+        "C14" => Plan {
+            id: "C14",
+            rule: "pure: one case = one backoff configuration (ExponentialBackoff / ExponentialRandomBackoff / every ReconnectPolicy constructor; initial 0..days, multiplier 1..10, max absent / below initial / s / h / years, randomization 0..1; grid walked first, then random configurations) swept over attempts 0..1500 (thorough 0..10000) dense plus 2^k, 2^k+-1, i32/u32 boundaries up to usize::MAX and random large attempts, under catch_unwind against an f64 reference; non-trivial iff the sweep reached the cap or attempts > 64; distinct = distinct configurations. sim-outage: reconnect layer (default and grids) against an always-failing probe for 1-48h of virtual time",
+            assumptions: vec!["f64 reference with relative tolerance 1e-9 + 2ns", "sampled configurations and attempt numbers; dense only up to 10^4"],
+            floor: 20,
+            engines: vec![
+                Engine { name: "pure", salt: 1, quick: 1200, thorough: 20_000, serial: false, run: Box::new(|s, t| c14::scenario(s, t)) },
+                Engine { name: "sim-outage", salt: 2, quick: 8, thorough: 64, serial: false, run: Box::new(|s, t| c14::outage(s, t)) },
+            ],
             extra: None,
         },
         _ => return None,
